@@ -202,6 +202,20 @@ func runSurvey(repo, out string, par int, limit int) {
 			jobs = append(jobs, job{f, k, ap})
 		}
 	}
+	if ops := os.Getenv("VERIF_SURVEY_OPS"); ops != "" {
+		// pre-filter by operator: apply each mutator once to learn its operator (cheap: parse + print only)
+		var sel []job
+		for _, j := range jobs {
+			if _, pt, ok := j.ap(j.k); ok {
+				for _, o := range strings.Split(ops, ",") {
+					if strings.HasPrefix(pt.Op, o) {
+						sel = append(sel, j)
+					}
+				}
+			}
+		}
+		jobs = sel
+	}
 	if limit > 0 && len(jobs) > limit {
 		// spread evenly
 		step := float64(len(jobs)) / float64(limit)
